@@ -51,6 +51,25 @@ pub struct Case {
     /// tick (1-based) after which parent i is answered; 0 = never
     pub answer_at: Vec<usize>,
     pub ticks: usize,
+    /// virtual ms that pass between the hand-over of the children and the first tick advance (< 4800:
+    /// the first timer deadline is at 5 s); moves the age of the requests at each tick off the
+    /// multiples of the tick period
+    #[serde(default)]
+    pub gap: u64,
+}
+
+/// The same step as an event of the Lean model `HS.Sync` (Model/Synchronizer.lean).
+#[derive(Clone, Debug)]
+pub enum ModelEv {
+    Suspend { block: u64, parent: u64, author: u64, now: u64 },
+    Stored { parent: u64 },
+    Tick { now: u64 },
+    /// time passes, no event: the task must stay silent
+    Quiet,
+}
+
+fn clock_ms() -> u64 {
+    (simnet::SystemTime::now().duration_since(simnet::UNIX_EPOCH).unwrap().as_millis() % 1_000_000_000_000) as u64
 }
 
 async fn barrier() {
@@ -72,6 +91,7 @@ pub struct Obs {
     pub what: String,
     pub requests: Vec<(u64, [u8; 32])>,
     pub looped: Vec<[u8; 32]>,
+    pub ev: ModelEv,
 }
 
 pub async fn exec(case: &Case) -> (Vec<Obs>, Vec<(Block, usize)>, Vec<Block>, Vec<(u64, u64)>) {
@@ -125,9 +145,9 @@ pub async fn exec(case: &Case) -> (Vec<Obs>, Vec<(Block, usize)>, Vec<Block>, Ve
     let mut obs: Vec<Obs> = Vec::new();
     let mut requested_at: Vec<(u64, u64)> = Vec::new(); // (parent index, ms of the first request)
     macro_rules! observe {
-        ($what:expr) => {{
+        ($what:expr, $ev:expr) => {{
             barrier().await;
-            let mut o = Obs { at_ms: now_ms(base), what: $what, requests: vec![], looped: vec![] };
+            let mut o = Obs { at_ms: now_ms(base), what: $what, requests: vec![], looped: vec![], ev: $ev };
             for (j, bytes) in std::mem::take(&mut *frames.lock().unwrap()) {
                 match bincode::deserialize::<ConsensusMessage>(&bytes) {
                     Ok(ConsensusMessage::SyncRequest(d, origin)) if origin == u.pk(node) => o.requests.push((j, d.0)),
@@ -140,24 +160,31 @@ pub async fn exec(case: &Case) -> (Vec<Obs>, Vec<(Block, usize)>, Vec<Block>, Ve
             obs.push(o);
         }};
     }
-    for (b, pi) in &kids {
+    for (ki, (b, pi)) in kids.iter().enumerate() {
+        // the task stamps the request at this very instant: virtual time only moves when every task is idle
+        let stamp = clock_ms();
         let r = sync.get_parent_block(b).await;
         if !matches!(r, Ok(None)) {
-            obs.push(Obs { at_ms: now_ms(base), what: "get_parent_block did not return Ok(None) for a missing parent".into(), requests: vec![(0, [0xdd; 32])], looped: vec![] });
+            obs.push(Obs { at_ms: now_ms(base), what: "get_parent_block did not return Ok(None) for a missing parent".into(), requests: vec![(0, [0xdd; 32])], looped: vec![], ev: ModelEv::Quiet });
         }
         if !requested_at.iter().any(|(i, _)| *i == *pi as u64) {
             requested_at.push((*pi as u64, now_ms(base)));
         }
-        observe!(format!("child of parent {}", pi));
+        observe!(format!("child of parent {}", pi), ModelEv::Suspend { block: 1 + ki as u64, parent: 1000 + *pi as u64, author: u.key_id(&b.author), now: stamp });
+    }
+    if case.gap > 0 {
+        tokio::time::advance(Duration::from_millis(case.gap.min(4_800))).await;
+        observe!("gap".to_string(), ModelEv::Quiet);
     }
     for t in 1..=case.ticks {
         tokio::time::advance(Duration::from_millis(TICK_MS)).await;
-        observe!(format!("tick {}", t));
+        let stamp = clock_ms();
+        observe!(format!("tick {}", t), ModelEv::Tick { now: stamp });
         for (i, at) in case.answer_at.iter().enumerate() {
             if *at == t {
                 let p = &parents[i];
                 store.write(p.digest().to_vec(), bincode::serialize(p).unwrap()).await;
-                observe!(format!("answer {}", i));
+                observe!(format!("answer {}", i), ModelEv::Stored { parent: 1000 + i as u64 });
             }
         }
     }
@@ -242,6 +269,136 @@ fn monitor(case: &Case, obs: &[Obs], kids: &[(Block, usize)], parents: &[Block],
     out
 }
 
+fn model_items(ans: &str) -> Option<Vec<String>> {
+    let a = ans.trim();
+    let body = a.strip_prefix("(outs")?.strip_suffix(")")?.trim();
+    if body.is_empty() {
+        return Some(vec![]);
+    }
+    let mut out = Vec::new();
+    let mut depth = 0;
+    let mut cur = String::new();
+    for ch in body.chars() {
+        match ch {
+            '(' => {
+                depth += 1;
+                cur.push(ch);
+            }
+            ')' => {
+                depth -= 1;
+                cur.push(ch);
+                if depth == 0 {
+                    out.push(cur.trim().to_string());
+                    cur.clear();
+                }
+            }
+            _ => {
+                if depth > 0 {
+                    cur.push(ch)
+                }
+            }
+        }
+    }
+    Some(out)
+}
+
+/// Lock-step with the Lean model `HS.Sync`: the same events, the same outputs (as sets per step).
+/// At a tick, a request whose age is within `SLACK_MS` of the delay is left out of the comparison on
+/// both sides (the harness reads the clock next to the task, not inside it).
+const SLACK_MS: u64 = 2;
+fn compare_model(model: &mut crate::driver::Model, case: &Case, obs: &[Obs], kids: &[(Block, usize)], parents: &[Block]) -> (Vec<(String, String)>, u64, u64) {
+    let mut out = Vec::new();
+    let (mut compared, mut skipped) = (0u64, 0u64);
+    let others: Vec<u64> = (2..=case.n as u64).collect();
+    let pidx: BTreeMap<[u8; 32], usize> = parents.iter().enumerate().map(|(i, p)| (p.digest().0, i)).collect();
+    let kidx: BTreeMap<[u8; 32], usize> = kids.iter().enumerate().map(|(i, (b, _))| (b.digest().0, i)).collect();
+    let a = model.ask(&format!("(sy init {})", case.delay));
+    if a != "(ok)" {
+        out.push(("model:driver-error".into(), a));
+        return (out, 0, 0);
+    }
+    for o in obs {
+        // what the real task did in this step
+        let mut real: Vec<String> = Vec::new();
+        let mut by_parent: BTreeMap<usize, Vec<u64>> = BTreeMap::new();
+        for (j, d) in &o.requests {
+            match pidx.get(d) {
+                Some(i) => by_parent.entry(*i).or_default().push(*j),
+                None => real.push("(unknown-frame)".into()),
+            }
+        }
+        for (i, mut peers) in by_parent {
+            peers.sort();
+            if peers == others {
+                real.push(format!("(broadcast {})", 1000 + i));
+            } else {
+                for j in peers {
+                    real.push(format!("(request {} {})", j, 1000 + i));
+                }
+            }
+        }
+        for d in &o.looped {
+            match kidx.get(d) {
+                Some(k) => real.push(format!("(loopback {})", 1 + k)),
+                None => real.push("(unknown-loopback)".into()),
+            }
+        }
+        real.sort();
+        let ask = |m: &mut crate::driver::Model, line: String| -> Result<Vec<String>, String> {
+            let a = m.ask(&line);
+            model_items(&a).map(|mut v| {
+                v.sort();
+                v
+            }).ok_or(a)
+        };
+        let mut expect: Vec<String> = match &o.ev {
+            ModelEv::Quiet => vec![],
+            ModelEv::Suspend { block, parent, author, now } => match ask(model, format!("(sy suspend {} {} {} {})", block, parent, author, now)) {
+                Ok(v) => v,
+                Err(a) => {
+                    out.push(("model:driver-error".into(), a));
+                    return (out, compared, skipped);
+                }
+            },
+            ModelEv::Stored { parent } => match ask(model, format!("(sy stored {})", parent)) {
+                Ok(v) => v,
+                Err(a) => {
+                    out.push(("model:driver-error".into(), a));
+                    return (out, compared, skipped);
+                }
+            },
+            ModelEv::Tick { now } => {
+                let lo = ask(model, format!("(sy tick {})", now.saturating_sub(SLACK_MS))).unwrap_or_default();
+                let hi = ask(model, format!("(sy tick {})", now + SLACK_MS)).unwrap_or_default();
+                let mid = match ask(model, format!("(sy tick {})", now)) {
+                    Ok(v) => v,
+                    Err(a) => {
+                        out.push(("model:driver-error".into(), a));
+                        return (out, compared, skipped);
+                    }
+                };
+                // on the boundary: in `hi` but not in `lo`
+                let edge: Vec<String> = hi.iter().filter(|x| !lo.contains(x)).cloned().collect();
+                if !edge.is_empty() {
+                    skipped += edge.len() as u64;
+                    real.retain(|x| !edge.contains(x));
+                }
+                mid.into_iter().filter(|x| !edge.contains(x)).collect()
+            }
+        };
+        expect.sort();
+        compared += 1;
+        if real != expect {
+            out.push((
+                "model:synchronizer-output".into(),
+                format!("{} (event {:?}): the real task produced {:?}, the model {:?}", o.what, o.ev, real, expect),
+            ));
+            return (out, compared, skipped);
+        }
+    }
+    (out, compared, skipped)
+}
+
 fn gen_case(rng: &mut SmallRng, seed: u64) -> Case {
     let n = rng.gen_range(4, 8);
     let np = rng.gen_range(1, 4);
@@ -260,10 +417,11 @@ fn gen_case(rng: &mut SmallRng, seed: u64) -> Case {
         children: (0..np).map(|_| rng.gen_range(1, 3)).collect(),
         answer_at: (0..np).map(|_| if rng.gen_bool(0.3) { 0 } else { rng.gen_range(1, ticks + 1) }).collect(),
         ticks,
+        gap: if rng.gen_bool(0.6) { rng.gen_range(50, 4_800) } else { 0 },
     }
 }
 
-fn run_case(rep: &mut Report, case: &Case, distinct: &mut BTreeSet<String>) {
+fn run_case(rep: &mut Report, model: &mut crate::driver::Model, case: &Case, distinct: &mut BTreeSet<String>) {
     let rt = tokio::runtime::Builder::new_current_thread().enable_all().start_paused(true).build().unwrap();
     let (obs, kids, parents, requested_at) = rt.block_on(exec(case));
     drop(rt);
@@ -273,6 +431,19 @@ fn run_case(rep: &mut Report, case: &Case, distinct: &mut BTreeSet<String>) {
     let replay = json!({"engine": "syncretry", "case": case});
     for (k, d) in monitor(case, &obs, &kids, &parents, &requested_at, &author) {
         rep.finding("impl_vs_property", &k, d, replay.clone());
+    }
+    let (dis, compared, skipped) = compare_model(model, case, &obs, &kids, &parents);
+    for (k, d) in dis {
+        rep.finding("impl_vs_model", &k, d, replay.clone());
+    }
+    for _ in 0..compared {
+        rep.hit("model.step-compared");
+    }
+    for _ in 0..skipped {
+        rep.hit("model.request-on-the-delay-boundary-skipped");
+    }
+    if case.gap > 0 {
+        rep.hit("case.gap-before-first-tick");
     }
     rep.hit(&format!("delay.{}", case.delay));
     let retries: usize = obs.iter().filter(|o| o.what.starts_with("tick")).map(|o| o.requests.len()).sum();
@@ -293,21 +464,22 @@ pub fn run(o: &Opts) -> Report {
     let mut rep = Report::new("syncretry", "C07", &o.tier, o.seed);
     rep.rule = "the real consensus Synchronizer with sync_retry_delay in {0, 3 s, 7 s, 10 s (default, most cases), 22 s}, committees of 4-7, 1-3 missing parents with 1-2 children each, the first target silent, the clock advanced tick by tick (5 s), each parent answered at a random tick or never; distinct by case; non-trivial when at least one retry was observed and at least one parent was answered".into();
     let mut distinct = BTreeSet::new();
+    let mut model = crate::driver::Model::spawn();
     if let Some(file) = &o.replay {
         let v: serde_json::Value = serde_json::from_str(&std::fs::read_to_string(file).expect("replay file")).expect("replay json");
         let case: Case = serde_json::from_value(v["case"].clone()).expect("replay case");
-        run_case(&mut rep, &case, &mut distinct);
+        run_case(&mut rep, &mut model, &case, &mut distinct);
         return rep;
     }
     let mut rng = SmallRng::seed_from_u64(o.seed);
     // directed: the default configuration, one parent, never answered / answered late
     for (ticks, at) in [(5usize, 0usize), (6, 4), (4, 2)] {
-        run_case(&mut rep, &Case { seed: o.seed, n: 4, delay: 10_000, children: vec![2], answer_at: vec![at], ticks }, &mut distinct);
+        run_case(&mut rep, &mut model, &Case { seed: o.seed, n: 4, delay: 10_000, children: vec![2], answer_at: vec![at], ticks, gap: 0 }, &mut distinct);
     }
     let cases = if o.thorough() { 1500 } else { 60 };
     for i in 0..cases {
         let case = gen_case(&mut rng, o.seed.wrapping_mul(1000) + i);
-        run_case(&mut rep, &case, &mut distinct);
+        run_case(&mut rep, &mut model, &case, &mut distinct);
     }
     for p in crate::world::take_panics() {
         rep.finding("impl_vs_property", "C15:panic", p, json!({"engine": "syncretry"}));
